@@ -24,14 +24,23 @@ def state_label(rep, s, n):
         return "q%d" % (n - s)                   # sorted order differs from index order
     if k == "tuple":
         return (s % 2, s // 2)
+    if k.startswith("none:"):
+        # one state (index j mod n) is labelled None itself, the others strings / tuples (seeded C03-21)
+        if s == int(k.split(":")[1]) % n:
+            return None
+        return ("t", s) if s % 2 else "u%d" % s
     # falsy:<which>: state 0 carries a falsy label, the others strings / tuples (mixed types)
     if s == 0:
         return FALSY[k.split(":")[1]]
     return ("t", s) if s % 2 else "u%d" % s
 
 
-def action_label(rep, a):
+def action_label(rep, a, nA=1):
     k = rep.get("alabels", "int")
+    if k.startswith("none:"):
+        # the action with id j mod nA is labelled None (a "wait" / no-op action), the others strings (seeded C03-21):
+        # `x is not None` / dict.get(..) tests on a stored action cannot tell it from "no entry"
+        return None if a == int(k.split(":")[1]) % nA else "b%d" % a
     if k == "int":
         return a
     if k == "str":
@@ -51,7 +60,7 @@ def build_rep(m, rep):
     from msdm.core.distributions.dictdistribution import DeterministicDistribution
     n = m["n"]
     sl = [state_label(rep, s, n) for s in range(n)]
-    al = [action_label(rep, a) for a in range(m["nA"])]
+    al = [action_label(rep, a, m["nA"]) for a in range(m["nA"])]
     assert len(set(map(lambda x: (type(x).__name__, x), sl))) == n and len({(type(x).__name__, x) for x in al}) == m["nA"]
     mixed = rep.get("dist", "dict") == "mixed"
     import numpy as np
